@@ -255,21 +255,26 @@ impl Prop for C19 {
                 }
                 lines.push(line);
             }
+            // an empty / whitespace-only line somewhere in the file (the workers must go on)
+            if rng.chance(1, 5) {
+                let at = rng.below(lines.len() + 1);
+                lines.insert(at, rng.pick(&["", "", " ", "\t"]).to_string());
+            }
             files.push(lines);
         }
         // vocabulary size / special tokens: half of the cases leave only a few merges
-        let vocab = match rng.below(20) {
+        let vocab = match rng.below(40) {
             0 => 256,
             1 => *rng.pick(&[0usize, 64, 192]),
-            2..=7 => 384,
+            2..=13 => 384,
             _ => 320,
         };
         let budget = vocab.saturating_sub(256);
-        let nspecial = match rng.below(10) {
-            0..=3 => budget.saturating_sub(rng.range(1, 6)),
-            4 => budget.saturating_sub(rng.range(0, 1)),
-            5 => budget + rng.below(3),
-            6 => rng.below(budget + 1),
+        let nspecial = match rng.below(20) {
+            0..=8 => budget.saturating_sub(rng.range(1, 6)),
+            9 => budget.saturating_sub(rng.range(0, 1)),
+            10 => budget + rng.below(3),
+            11..=13 => rng.below(budget + 1),
             _ => rng.below(5),
         };
         let norm = if rng.chance(1, 3) { 0 } else { *rng.pick(&[1i64, 2, 3, 3, 4]) };
@@ -314,48 +319,54 @@ impl Prop for C19 {
     }
 
     fn exhaustive(&mut self, _tier: Tier) -> Vec<Val> {
-        // all corpora of 1..4 words (one line) of length 1..3 over {a, b}, two budgets:
-        // exhausting (64 merges) and stopping early (2 merges)
-        let mut words: Vec<String> = vec![];
-        for len in 1..=3usize {
-            for m in 0..(1usize << len) {
-                words.push((0..len).map(|i| if m >> i & 1 == 0 { 'a' } else { 'b' }).collect());
-            }
-        }
+        // all one-line corpora over {a, b}: up to 4 words of length <= 3 and up to 3 words of
+        // length <= 4, each with two budgets: exhausting (64 merges) and stopping early (2 merges)
         let mut out = vec![];
-        let nw = words.len();
-        // non-decreasing index sequences only: the word count map ignores order
-        let mut seqs: Vec<Vec<usize>> = (0..nw).map(|i| vec![i]).collect();
-        let mut all: Vec<Vec<usize>> = seqs.clone();
-        for _ in 2..=4usize {
-            let mut next = vec![];
-            for s in &seqs {
-                for i in *s.last().unwrap()..nw {
-                    let mut t = s.clone();
-                    t.push(i);
-                    next.push(t);
+        let mut seen = std::collections::HashSet::new();
+        for (maxlen, maxwords) in [(3usize, 4usize), (4, 3)] {
+            let mut words: Vec<String> = vec![];
+            for len in 1..=maxlen {
+                for m in 0..(1usize << len) {
+                    words.push((0..len).map(|i| if m >> i & 1 == 0 { 'a' } else { 'b' }).collect());
                 }
             }
-            all.extend(next.iter().cloned());
-            seqs = next;
-        }
-        for idx in all {
-            let line: Vec<&str> = idx.iter().map(|&i| words[i].as_str()).collect();
-            let line = line.join(" ");
-            for nspecial in [0usize, 62] {
-                let raw = vec![
-                    Val::u(320),
-                    Val::u(nspecial),
-                    Val::I(0),
-                    Val::u(idx.len() % 4),
-                    Val::none(),
-                    Val::L(vec![Val::L(vec![Val::str(&line)])]),
-                    Val::L(vec![]),
-                    Val::u(1),
-                    Val::L(vec![Val::str(&line)]),
-                ];
-                if let Some(v) = self.build(&raw) {
-                    out.push(v);
+            let nw = words.len();
+            // non-decreasing index sequences only: the word count map ignores order
+            let mut seqs: Vec<Vec<usize>> = (0..nw).map(|i| vec![i]).collect();
+            let mut all: Vec<Vec<usize>> = seqs.clone();
+            for _ in 2..=maxwords {
+                let mut next = vec![];
+                for s in &seqs {
+                    for i in *s.last().unwrap()..nw {
+                        let mut t = s.clone();
+                        t.push(i);
+                        next.push(t);
+                    }
+                }
+                all.extend(next.iter().cloned());
+                seqs = next;
+            }
+            for idx in all {
+                let line: Vec<&str> = idx.iter().map(|&i| words[i].as_str()).collect();
+                let line = line.join(" ");
+                if !seen.insert(line.clone()) {
+                    continue;
+                }
+                for nspecial in [0usize, 62] {
+                    let raw = vec![
+                        Val::u(320),
+                        Val::u(nspecial),
+                        Val::I(0),
+                        Val::u(idx.len() % 4),
+                        Val::none(),
+                        Val::L(vec![Val::L(vec![Val::str(&line)])]),
+                        Val::L(vec![]),
+                        Val::u(1),
+                        Val::L(vec![Val::str(&line)]),
+                    ];
+                    if let Some(v) = self.build(&raw) {
+                        out.push(v);
+                    }
                 }
             }
         }
@@ -466,6 +477,9 @@ impl Prop for C19 {
             tags.push(if n < budget { "exhausted".into() } else if budget == 0 { "budget0".into() } else { "full".into() });
             if n >= 2 && deep {
                 tags.push("nt".into());
+            }
+            if n >= 20 {
+                tags.push("long".into());
             }
         }
         tags.push(format!("threads{}", p.threads));
